@@ -1,6 +1,7 @@
 package main
 
 import (
+	"bytes"
 	"fmt"
 	"math/rand"
 	"os"
@@ -106,6 +107,7 @@ func crashsimEngine() {
 					c.post = dumpDB(e.DB)
 					pre = c.post
 					commits = append(commits, c)
+					metaWriteModel(rep, dir, e.DB, c, o, ops[:i+1])
 				}
 			}
 			if r == "timeout" || strings.HasPrefix(r, "panic") {
@@ -124,6 +126,49 @@ func crashsimEngine() {
 		}
 	}
 	rep.finish(start)
+}
+
+// metaWriteModel: the byte-level model of Tx.writeMeta (Model/MetaWrite.lean) for the meta the
+// database holds after this commit must be exactly the page the commit wrote into a meta slot
+// (the last write of the commit at offset 0 or pageSize), and it must go to slot txid%2.
+func metaWriteModel(rep *Report, dir string, db *bolt.DB, c *commitRec, o optSet, ops []Op) {
+	if *flagModel == "" {
+		return
+	}
+	ps := int64(c.pageSize)
+	var mw *ioRec
+	for k := range c.io {
+		r := &c.io[k]
+		if r.kind == "write" && (r.off == 0 || r.off == ps) && int64(len(r.data)) == ps {
+			mw = r
+		}
+	}
+	rp := map[string]any{"options": o.String(), "opts": o, "ops": opLines(ops), "scenario": "meta write of the last commit"}
+	rep.Evaluations++
+	if mw == nil {
+		rep.violation("C01", "correspondence", "meta-write-model-vs-impl", "the commit issued no page-sized write into a meta slot", rp)
+		return
+	}
+	txid, root, seq, fl, pgid := db.VerifMeta()
+	mo := filepath.Join(dir, "model-metapage.bin")
+	_ = os.Remove(mo)
+	defer os.Remove(mo)
+	out, err := exec.Command(*flagModel, "metapage", mo, fmt.Sprint(ps), fmt.Sprint(root), fmt.Sprint(seq), fmt.Sprint(fl), fmt.Sprint(pgid), fmt.Sprint(txid)).Output()
+	b, e2 := os.ReadFile(mo)
+	if err != nil || e2 != nil || !strings.HasPrefix(string(out), "ok ") {
+		rep.violation("C01", "correspondence", "model-driver-failed", fmt.Sprintf("%s %v %v", truncate(string(out), 80), err, e2), rp)
+		return
+	}
+	if mw.off != int64(txid%2)*ps || !bytes.Equal(mw.data, b) {
+		at := 0
+		for at < len(b) && at < len(mw.data) && b[at] == mw.data[at] {
+			at++
+		}
+		rep.Disagree++
+		rep.violation("C01", "correspondence", "meta-write-model-vs-impl", fmt.Sprintf("commit at txid %d wrote its meta page at offset %d; the model writes slot %d and the bytes differ first at offset %d of the page", txid, mw.off, txid%2, at), rp)
+		return
+	}
+	rep.count("meta-write-bytes")
 }
 
 type group struct {
